@@ -100,6 +100,21 @@ func c20Case(c *core.Ctx, id string) {
 	r := c.Rand(id)
 	nclients := 2 + r.IntN(31)
 	nkeys := 1 + r.IntN(4)
+	// keys of every length class (1 byte ... 4 KiB), each call building its key string afresh
+	keyLens := []int{2, 2, 2, 8, 63, 64, 65, 100, 4096}
+	klen := make([]int, nkeys)
+	for k := range klen {
+		klen[k] = keyLens[r.IntN(len(keyLens))]
+	}
+	keyFor := func(k int) string {
+		base := fmt.Sprintf("k%d", k)
+		var b strings.Builder
+		for b.Len() < klen[k] {
+			b.WriteString(base)
+			b.WriteByte('/')
+		}
+		return b.String()[:klen[k]] + fmt.Sprint(k)
+	}
 	failPct := 5 + r.IntN(36)
 	total := 40 + r.IntN(160)
 	if nclients > 10 {
@@ -127,7 +142,7 @@ func c20Case(c *core.Ctx, id string) {
 	plans := make([][]plan, nclients)
 	for cl := range plans {
 		for k := 0; k < per; k++ {
-			plans[cl] = append(plans[cl], plan{fmt.Sprintf("k%d", r.IntN(nkeys)), r.IntN(100) < failPct, r.IntN(6)})
+			plans[cl] = append(plans[cl], plan{keyFor(r.IntN(nkeys)), r.IntN(100) < failPct, r.IntN(6)})
 		}
 	}
 	var wg sync.WaitGroup
